@@ -1683,7 +1683,7 @@ class K(Dummy):
         ZL1 = mna.cct.elements[L1].Z.sympy
         ZL2 = mna.cct.elements[L2].Z.sympy
 
-        if mna.kind in ('s', 'ivp', 'laplace'):
+        if mna.kind in ('s', 'ivp', 'laplace', 'transient'):
             # FIXME, generalise for other domains...
             ZM = K.sympy * sym.sqrt(ZL1 * ZL2 / ssym**2) * ssym
         else:
